@@ -110,7 +110,7 @@ class C01(Prop):
         return ic.iso_request(case)
 
     def compare(self, case, io, mo):
-        return ic.compare_xr(io, mo, exact=case["stream"] == "exact", with_r=False, scale=ic.data_scale(case))  # r is C12's business
+        return ic.compare_xr(io, mo, exact=case["stream"] == "exact", with_r=False, scale=ic.data_scale(case), ylocal=case["y"])  # r is C12's business
 
     def oracle(self, case, io):
         if "err" in io:
@@ -135,9 +135,10 @@ class C01(Prop):
         else:
             ref, _ = ic.pava_exact(ys, ws, ic.wmean)
         scale = max(1.0, max(abs(float(v)) for v in ys))
+        loc = ic.local_scales(ref, ys)
         for i in range(n):
-            if abs(x[i] - float(ref[i])) > 1e-9 * scale:
-                return f"x[{i}]={x[i]!r} differs from max-min of weighted means {float(ref[i])!r}"
+            if abs(x[i] - float(ref[i])) > 1e-9 * loc[i]:
+                return f"x[{i}]={x[i]!r} differs from max-min of weighted means {float(ref[i])!r} (tolerance 1e-9 x {loc[i]:g}, the largest |y| in its block)"
         # weighted totals preserved
         tot_x = sum(w * Fraction(v) for w, v in zip(ws, x))
         tot_y = sum(w * v for w, v in zip(ws, ys))
